@@ -53,9 +53,16 @@ func plans() map[string]Plan {
 		QuickCap: 300, ThoroughCap: 3000,
 		Assumptions: append([]string{"unroll(p) and its meaning are computed by the harness (engines/e4/c08.go, ref/asm.go) without calling gmars"}, baseAssumptions...)}
 	p["C06"] = Plan{Prop: "C06",
-		Quick:       []Job{{Name: "accepted-outputs", Engine: "e4"}},
-		Thorough:    []Job{{Name: "accepted-outputs", Engine: "e4"}},
-		QuickCap:    300, ThoroughCap: 3000,
+		Quick:    []Job{{Name: "accepted-outputs", Engine: "e4"}},
+		Thorough: []Job{{Name: "accepted-outputs", Engine: "e4"}},
+		QuickCap: 300, ThoroughCap: 3000,
 		Assumptions: append([]string{"the ICWS'88 legality table is ref.Legal88 (written from the standard; SLT with immediate B allowed as the suite documents)"}, baseAssumptions...)}
+	for _, id := range []string{"C09", "C10", "C16"} {
+		p[id] = Plan{Prop: id,
+			Quick:       []Job{{Name: "load-files", Engine: "e5"}},
+			Thorough:    []Job{{Name: "load-files", Engine: "e5"}},
+			QuickCap:    300, ThoroughCap: 3000,
+			Assumptions: append([]string{"canonical printer, line classifier and listing reader are ref/load.go (independent of gmars)"}, baseAssumptions...)}
+	}
 	return p
 }
